@@ -56,7 +56,17 @@ RandTree(d) ==
 RECURSIVE NOps(_), LeafSeq(_)
 NOps(x) == CASE x.k \in {"leaf", "hole"} -> 0 [] x.k = "un" -> 1 + NOps(x.a) [] x.k = "bin" -> 1 + NOps(x.l) + NOps(x.r)
 LeafSeq(x) == CASE x.k = "leaf" -> <<x.x>> [] x.k = "hole" -> <<>> [] x.k = "un" -> LeafSeq(x.a) [] x.k = "bin" -> LeafSeq(x.l) \o LeafSeq(x.r)
-Keep(x) == Family # "prec" \/ (NOps(x) <= MaxOps /\ (Positional => LeafSeq(x) = SubSeq(<<"4", "2", "3", "2">>, 1, Len(LeafSeq(x)))))
+Keep(x) == Family # "prec" \/ NOps(x) <= MaxOps
+\* quick tier of family "prec": shapes over one placeholder leaf, leaves then numbered 4, 2, 3, 2 from left to right
+PosLeaves == <<Leaf("4", NumV("%", 4, 1)), Leaf("2", NumV("%", 2, 1)), Leaf("3", NumV("%", 3, 1)), Leaf("2", NumV("%", 2, 1))>>
+RECURSIVE Relabel(_, _)
+Relabel(x, j) ==          \* [t |-> relabelled tree, j |-> next leaf index]
+    CASE x.k = "leaf" -> [t |-> PosLeaves[((j - 1) % 4) + 1], j |-> j + 1]
+      [] x.k = "un"   -> LET a == Relabel(x.a, j) IN [t |-> [x EXCEPT !.a = a.t], j |-> a.j]
+      [] x.k = "bin"  -> LET l == Relabel(x.l, j)
+                             r == Relabel(x.r, l.j)
+                         IN  [t |-> [x EXCEPT !.l = l.t, !.r = r.t], j |-> r.j]
+Shapes == {x \in Trees(MaxDepth, {Leaf("4", NumV("%", 4, 1))}, PrecBin) : NOps(x) <= MaxOps}
 
 \* PRINT shows 7 significant digits: the printed number is the value itself for these
 Printable(x) == LET v == Eval(x) IN v.k # "num" \/ (v.d <= 8 /\ Abs(v.n) < 8192)
@@ -68,7 +78,8 @@ Emit(x) ==
                 PrintT(<<"EXPR", ToJson([t |-> x, x |-> txt[s], style |-> Styles[s], pr |-> Printable(x)])>>)
 InFragment(x) == Eval(x).k # "out"
 
-Init == /\ CASE Family = "prec"   -> t \in Trees(MaxDepth, IntLeaves, PrecBin) /\ i = 0
+Init == /\ CASE Family = "prec"   -> (IF Positional THEN t \in {Relabel(x, 1).t : x \in Shapes}
+                                      ELSE t \in Trees(MaxDepth, IntLeaves, PrecBin)) /\ i = 0
              [] Family = "typing" -> t \in Trees(MaxDepth, TypLeaves, BinOps) /\ i = 0
              [] Family = "hole"   -> t \in {Punch(x) : x \in Trees(MaxDepth, TypLeaves, BinOps)} /\ i = 0
              [] Family = "random" -> i \in 1..NRandom /\ t = RandTree(MaxDepth)
